@@ -26,24 +26,39 @@ def gen_reset_consts(ctx):
     if rc != 0: raise lib.CheckError('reset_probe failed: ' + err)
     if ctx.write_generated('Generated/ResetConsts.v', out):
         ctx.log('Generated/ResetConsts.v changed: dependent theorems are re-checked')
-    # the extracted model has the constants compiled in: re-extract it when they are not the ones it was built with
-    import hashlib, fcntl
-    stamp = os.path.join(lib.ROOT, 'build', 'modelrun_reset.consts')
-    h = hashlib.md5(out.encode()).hexdigest()
-    exe = os.path.join(lib.ROOT, 'build', 'modelrun_reset')
-    if not os.path.exists(exe) or not os.path.exists(stamp) or open(stamp).read().strip() != h:
-        ctx.log('re-extracting modelrun_reset for the current constants')
-        lock = open(os.path.join(lib.COQ, '.lock'), 'w'); fcntl.flock(lock, fcntl.LOCK_EX)
-        try:
-            for f in ('Generated/ResetConsts.v', 'Reset/BuilderState.v', 'Extract/Extract_reset.v'):
-                rc, o = lib.sh(['coqc', '-Q', '.', 'Flatcc', f], cwd=lib.COQ, timeout=900)
-                if rc != 0: raise lib.CheckError('coqc %s failed: %s' % (f, o[-1500:]))
-        finally:
-            fcntl.flock(lock, fcntl.LOCK_UN); lock.close()
-        rc, o = lib.sh([os.path.join(lib.ROOT, 'bin', 'build_modelrun'), 'reset'], timeout=900)
-        if rc != 0: raise lib.CheckError('build_modelrun reset failed: ' + o[-1500:])
-        open(stamp, 'w').write(h)
-    return {m.group(1): int(m.group(2)) for m in re.finditer(r'Definition (\S+) : Z := (-?\d+)\.', out)}
+    consts = {m.group(1): int(m.group(2)) for m in re.finditer(r'Definition (\S+) : Z := (-?\d+)\.', out)}
+    # The extracted model (ocaml/reset/model.ml) has the constants compiled in.  A model binary per set of constants is built in a
+    # directory of its own (build/reset_model_<hash>): the constant definitions of model.ml are replaced by the values just read
+    # (nothing shared is rewritten, so checks running against different trees at the same time do not disturb each other).
+    import hashlib, shutil
+    h = hashlib.md5(out.encode()).hexdigest()[:12]
+    src = os.path.join(lib.ROOT, 'ocaml', 'reset')
+    if not os.path.exists(os.path.join(src, 'model.ml')):
+        lib.sh([os.path.join(lib.ROOT, 'bin', 'build_modelrun'), 'reset'], timeout=900)
+    key = hashlib.md5(open(os.path.join(src, 'model.ml'), 'rb').read() + open(os.path.join(src, 'driver.ml'), 'rb').read()).hexdigest()[:8]
+    d = os.path.join(lib.ROOT, 'build', 'reset_model_%s_%s' % (h, key))
+    exe = os.path.join(d, 'modelrun_reset')
+    if not os.path.exists(exe):
+        tmp = d + '.tmp%d' % os.getpid()
+        shutil.rmtree(tmp, ignore_errors=True); os.makedirs(tmp)
+        def zlit(v):
+            def pos(n): return 'XH' if n == 1 else ('XO (%s)' % pos(n >> 1) if n % 2 == 0 else 'XI (%s)' % pos(n >> 1))
+            return 'Z0' if v == 0 else ('Zpos (%s)' % pos(v) if v > 0 else 'Zneg (%s)' % pos(-v))
+        ml = open(os.path.join(src, 'model.ml')).read()
+        for name, v in consts.items():
+            on = name[0].lower() + name[1:]
+            ml, n = re.subn(r'(\nlet %s =\n)(?:  .*\n)+' % re.escape(on), lambda m: m.group(1) + '  ' + zlit(v) + '\n', ml)
+        open(os.path.join(tmp, 'model.ml'), 'w').write(ml)
+        shutil.copy(os.path.join(src, 'model.mli'), tmp)
+        open(os.path.join(tmp, 'driver.ml'), 'w').write(open(os.path.join(lib.ROOT, 'ocaml', 'zutil.ml.inc')).read() + '\n' + open(os.path.join(src, 'driver.ml')).read())
+        rc, o = lib.sh('cd %s && (ocamlfind ocamlopt -O3 -w -a -package str -linkpkg model.mli model.ml driver.ml -o modelrun_reset 2>/dev/null || '
+                       'ocamlfind ocamlopt -w -a -package str -linkpkg model.mli model.ml driver.ml -o modelrun_reset)' % tmp, timeout=900)
+        if rc != 0 or not os.path.exists(os.path.join(tmp, 'modelrun_reset')): raise lib.CheckError('building the model for the current constants failed: ' + o[-1500:])
+        try: os.rename(tmp, d)
+        except OSError: shutil.rmtree(tmp, ignore_errors=True)
+    ctx.modelrun = lambda area, _exe=exe: _exe
+    return consts
+
 
 
 def build_harness(ctx, name='reset_hist', extra_defs=(), ndebug=True, out_name=None):
